@@ -445,7 +445,7 @@ def regression_tier(mod, prop_id: str) -> dict:
 # --------------------------------------------------------------------------
 # Coverage-guided stage (atheris / libFuzzer), see vp/fuzz.py
 # --------------------------------------------------------------------------
-FUZZ_DEFAULT = {"quick": 0, "thorough": 12_000}   # libFuzzer -runs per shard
+FUZZ_DEFAULT = {"quick": 0, "thorough": 8_000}   # libFuzzer -runs per shard
 
 
 def fuzz_stage(mod, prop_id: str, tier: str, seed: int, jobs: int) -> List[dict]:
